@@ -336,7 +336,7 @@ fn run_mode(cx: &Ctx, serial: bool) -> Option<i32> {
     // free-running OS threads. It reaches what the cooperative scheduler cannot separate (an
     // unsynchronised access pair between two hook points, e.g. inside one Delegate instruction).
     // The oracle is exact (the sequential result), so it can only confirm a violation.
-    let stress_rounds = if cx.quick() { 300 } else { 3000 };
+    let stress_rounds = if cx.quick() { 1500 } else { 10000 };
     let mut stress_calls = 0u64;
     for item in corpus() {
         let re = match engine::compile_with(item.pattern, |b| {
@@ -349,7 +349,8 @@ fn run_mode(cx: &Ctx, serial: bool) -> Option<i32> {
         };
         let expected: Vec<String> = item.texts.iter().map(|t| one_call(&re.0, t, 0)).collect();
         let bad: std::sync::Mutex<Option<(usize, String)>> = std::sync::Mutex::new(None);
-        let nthreads = 8usize;
+        // more threads than regex-automata's pool has stacks (8), so that non-owner threads share one
+        let nthreads = 24usize;
         std::thread::scope(|s| {
             for th in 0..nthreads {
                 let (re, expected, bad, item) = (&re, &expected, &bad, &item);
@@ -377,7 +378,7 @@ fn run_mode(cx: &Ctx, serial: bool) -> Option<i32> {
             t.violation(
                 2,
                 jobj! {"kind" => "c18-stress", "pattern" => item.pattern, "text" => item.texts[ti], "expected" => expected[ti].as_str(), "observed" => got.as_str(),
-                "summary" => format!("free-running stress (8 threads, sampling): /{}/ on {:?} returned {} instead of the sequential result {}", item.pattern, item.texts[ti], got, expected[ti])},
+                "summary" => format!("free-running stress (24 threads, sampling): /{}/ on {:?} returned {} instead of the sequential result {}", item.pattern, item.texts[ti], got, expected[ti])},
             );
         }
     }
@@ -392,7 +393,7 @@ fn run_mode(cx: &Ctx, serial: bool) -> Option<i32> {
         t,
         Finish {
             rule: format!(
-                "static: the separate crate c18static asserting Regex: Send + Sync + Clone must compile. Dynamic (E3): for each of the 14 corpus patterns (VM programs with delegates, groups, look-around, backreference, atomic group, counted repeat, conditional, \\K; and whole-pattern hand-off), configurations (threads, preemption bound, calls per thread) {:?}, on one shared &Regex and on clones: every schedule with at most that many preemptions is executed on real OS threads (baton passing; scheduling points at run entry/exit and before every VM instruction, hook H4; switching away from a finished thread is free); oracle: every call (captures / find_iter) returns exactly its sequential result, no panic; the first schedule and every failing schedule are replayed and must reproduce; supplementary and labelled as sampling (not counted in the coverage): the same calls on 8 free-running threads; distinct_nontrivial = schedules of VM-compiled patterns",
+                "static: the separate crate c18static asserting Regex: Send + Sync + Clone must compile. Dynamic (E3): for each of the 14 corpus patterns (VM programs with delegates, groups, look-around, backreference, atomic group, counted repeat, conditional, \\K; and whole-pattern hand-off), configurations (threads, preemption bound, calls per thread) {:?}, on one shared &Regex and on clones: every schedule with at most that many preemptions is executed on real OS threads (baton passing; scheduling points at run entry/exit and before every VM instruction, hook H4; switching away from a finished thread is free); oracle: every call (captures / find_iter) returns exactly its sequential result, no panic; the first schedule and every failing schedule are replayed and must reproduce; supplementary and labelled as sampling (not counted in the coverage): the same calls on 24 free-running threads; distinct_nontrivial = schedules of VM-compiled patterns",
                 configs
             ),
             exhaustive: !capped_any,
